@@ -32,7 +32,12 @@ SCRIPTS = {
             "a = LCD(rs=12, en=11, d4=5, d5=4, d6=3, d7=2)\nb = LCD(i2c_addr=0x27, cols=20, rows=4)\ns = Servo(9)\ns2 = Servo(10)\nwhile True:\n    s.write(10)\n"),
 }
 NEEDS = {"plain": [], "servo": ["Servo"], "lcd_par": ["LiquidCrystal"], "lcd_i2c": ["LiquidCrystal_I2C"], "all": ["Servo", "LiquidCrystal", "LiquidCrystal_I2C"]}
-FAULTS = ["none", "read", "parse", "emit", "mkdtemp", "mkdir", "write-main", "write-ini", "build", "upload"]
+FAULTS = ["none", "read", "parse", "emit", "mkdtemp", "mkdir", "write-main", "write-ini", "build", "upload", "build-killed", "upload-killed"]
+# `*-killed`: the PlatformIO process dies from a signal (negative return code) instead of exiting with a positive status; the same fault for the model
+
+
+def base_fault(f):
+    return f[:-7] if f.endswith("-killed") else f
 
 
 class Boom(Exception):
@@ -60,10 +65,11 @@ def run_real(R, pio, work: pathlib.Path, script: str, pair_valid: bool, upload: 
         effects.append(name)
         if not pio_present:
             raise FileNotFoundError("pio")
-        if (fault == "build" and name == "pio-run") or (fault == "upload" and name == "pio-run-upload"):
+        if (base_fault(fault) == "build" and name == "pio-run") or (base_fault(fault) == "upload" and name == "pio-run-upload"):
+            code = -9 if fault.endswith("-killed") else 1
             if kw.get("check"):
-                raise subprocess.CalledProcessError(1, argv)
-            return subprocess.CompletedProcess(argv, 1)
+                raise subprocess.CalledProcessError(code, argv)
+            return subprocess.CompletedProcess(argv, code)
         return subprocess.CompletedProcess(argv, 0)
 
     def fake_mkdtemp(*a, **k):
@@ -163,14 +169,15 @@ def run(ctx: Ctx) -> int:
     tr_emit = importlib.import_module("Reduino.transpile.emitter").emit
     cases = [(s, pv, up, pp, f) for s in SCRIPTS for pv in (True, False) for up in (True, False) for pp in (True, False) for f in FAULTS]
     T = lambda b: "T" if b else "F"
-    lines = [f"target|{T(pv)}|{T(up)}|{T(pp)}|{T('Servo' in NEEDS[s])}|{f}" for (s, pv, up, pp, f) in cases]
+    lines = [f"target|{T(pv)}|{T(up)}|{T(pp)}|{T('Servo' in NEEDS[s])}|{base_fault(f)}" for (s, pv, up, pp, f) in cases]
     model = ctx.lean.drive(lines)
-    for (s, pv, up, pp, f), line, m in zip(cases, lines, model):
-        eff, outcome, det = run_real(R, pio, ctx.work, s, pv, up, pp, f)
+    for (s, pv, up, pp, f0), line, m in zip(cases, lines, model):
+        eff, outcome, det = run_real(R, pio, ctx.work, s, pv, up, pp, f0)
+        f = base_fault(f0)
         impl = f"effects={','.join(eff)} outcome={outcome}"
-        replay = {"script": s, "source": SCRIPTS[s], "pair_valid": pv, "upload": up, "pio_present": pp, "fault": f, "effects": eff, "outcome": outcome}
+        replay = {"script": s, "source": SCRIPTS[s], "pair_valid": pv, "upload": up, "pio_present": pp, "fault": f0, "effects": eff, "outcome": outcome}
         ctx.cov["traces_validated_against_impl"] += 1
-        ctx.case(line + "|" + s, nontrivial=pv, sample={"scenario": replay} if len(ctx.cov["samples"]) < 3 and pv and f != "none" else None)
+        ctx.case(line + "|" + s + "|" + f0, nontrivial=pv, sample={"scenario": replay} if len(ctx.cov["samples"]) < 3 and pv and f != "none" else None)
         ctx.count("outcome:" + outcome.split(":")[0])
         if impl != m:
             ctx.tie_diff("tie Fx (Toolchain.target vs Reduino.target)", replay, m, impl)
